@@ -1,5 +1,6 @@
 import ZbossModel.Proofs.HostBound
 import ZbossModel.Proofs.HostRest
+import ZbossModel.Proofs.HostKeys
 /-! # C13 - a finished request leaves nothing behind, however it finished
 
 `Host.step` is the request machine at quiescent points: request start, ACK / response bytes,
@@ -79,6 +80,24 @@ theorem C13_late_response_no_effect_reachable (evs : List Ev) (key : Nat)
     (step (runEvents {} evs).1 (.rxRsp key)).listeners = (runEvents {} evs).1.listeners :=
   let h := C13_late_response_no_effect _ key hnone (rest_reachable evs)
   ⟨h.1, h.2.1⟩
+
+/-- **the next request for the same command receives its own response - every history**: if a request is running, has
+    not been answered yet, and every other request for its command has ended (however: response, timeout, cancellation,
+    close, loss), then the listener that the next response for that command resolves is this request's.  (A listener
+    carries its request's command - `Proofs/HostKeys.lean`; its request is running - no residue; a running unanswered request
+    is registered - `Covered`.) -/
+theorem C13_next_request_gets_its_response (evs : List Ev) (r : Req) (hr : r ∈ (runEvents {} evs).1.reqs)
+    (hp : r.phase ≠ .done) (hg : r.got = .nothing)
+    (hsole : ∀ r' ∈ (runEvents {} evs).1.reqs, r'.key = r.key → r'.id ≠ r.id → r'.phase = .done) :
+    (runEvents {} evs).1.listeners.find? (fun l => l.2 == r.key) = some (r.id, r.key) :=
+  sole_waiter_gets_it evs r hr hp hg hsole
+
+/-! ## non-vacuity: request 1 (command 5) times out; request 2 for the same command is issued and acknowledged; the
+    response goes to request 2 -/
+example : let st := (runEvents {} [.start 1 5 false 1 3013, .rxAck 0, .tick, .start 2 5 false 1 5026, .rxAck 1]).1
+    (st.reqs.map fun r => (r.id, r.key, r.phase, r.got)) = [(1, 5, .done, .nothing), (2, 5, .waitRsp, .nothing)] ∧
+    st.listeners.find? (fun l => l.2 == 5) = some (2, 5) ∧ (step st (.rxRsp 5)).out = [.wack, .done 2 .ret] := by
+  decide +kernel
 
 /-! ## non-vacuity: a request cancelled while queued behind the message lock leaves no listener, and the
     response that arrives later goes to the next request for that command -/
